@@ -28,6 +28,10 @@ S(u) == CASE u = "m" -> <<1, 1>> [] u = "cm" -> <<1, 100>> [] u = "km" -> <<1000
           [] u = "s" -> <<1, 1>> [] u = "ms" -> <<1, 1000>>
           [] u = "[len2]" -> <<2, 1>> [] u = "[len5]" -> <<5, 1>>
           [] OTHER -> <<1, 1>>
+\* equivalent `$unit len = <number> <unit>` lines for the custom symbols (the harness writes one or another,
+\* depending on the rendering); every one of them denotes S(u): number * S(unit) = S(u)
+CustomDefs(u) == CASE u = "[len2]" -> {<<2, "m">>, <<200, "cm">>} [] u = "[len5]" -> {<<5, "m">>, <<5000, "mm">>}
+ASSUME \A u \in {"[len2]", "[len5]"} : \A d \in CustomDefs(u) : d[1] * S(d[2])[1] * S(u)[2] = S(u)[1] * S(d[2])[2]
 O(u) == IF u = "Cel" THEN <<27315, 100>> ELSE <<0, 1>>
 Dim(u) == CASE u \in {"m", "cm", "km", "mm", "[len2]", "[len5]"} -> "L" [] u \in {"s", "ms"} -> "T" [] u \in {"K", "Cel"} -> "Th" [] OTHER -> "0"
 
